@@ -20,6 +20,7 @@ CLAIMED = {
  "C19": ("TLC model checking of MC_Reader (inner reader with short reads / Interrupted, retry loops, caching wrapper; invariants WindowCorrect, NoOverread) over read/seek programs observed from the real decoder; every model schedule replayed through a scripted reader + random schedules, judged by Trace_Reader", "7/C19"),
  "C20": ("trace validation of paired recordings from two separate builds (std+serde, alloc-only) against Trace_Config (projections must agree with each other and with the contract) and of serde round-trip steps against Trace_Tracker/Trace_Config (TLC)", "7/C20"),
  "C11": ("trace validation of recorded text against Render.tla (per-type templates instantiated with the contract's decoded values, branch conditions explicit; float tokens compared numerically; printed heading checked with fixed-point trig) by TLC", "7/C11"),
+ "C16": ("TLC model checking of MC_Feed (line loop over a segmented byte stream with short/long gaps; invariants NoCrash, ExactlyOnceInOrder, AllProcessed) + schedules of the bounded model, malformed-line feeds and disconnect/reconnect runs executed against the real 1090 and radar (pty + guarded hook), judged by Trace_Feed", "7/C16"),
 }
 NOT_YET = {}
 import subprocess
